@@ -1,5 +1,5 @@
 SPECIFICATION WSpec
-CONSTANTS Inst = {1, 2, 3, 4} NVB = 8 P = 4 D = 2 MaxEvents = 5 Settle = 9 Marking = TRUE Record = FALSE Target = "@TARGET@"
+CONSTANTS Inst = {1, 2, 3} NVB = 8 P = 4 D = 2 MaxEvents = 4 Settle = 9 Marking = TRUE Record = FALSE Target = "@TARGET@"
 VIEW view
 INVARIANTS WitnessInv
 CHECK_DEADLOCK FALSE
